@@ -250,7 +250,7 @@ class NetSeam:
 
     def __init__(self, script, body):
         """script: list of response specs consumed one per request (last one repeats):
-             {"kind": "ok"} | {"kind": "status", "code": 404} |
+             {"kind": "ok"} | {"kind": "status", "code": 404[, "fault": {...}]} |
              {"kind": "exc", "type": "ConnectionError"|"Timeout"|"ChunkedEncodingError"} |
              {"kind": "body", "fault": {...corpus.content_fault spec...}}"""
         self.script = list(script or [{"kind": "ok"}])
@@ -273,6 +273,10 @@ class NetSeam:
         self.fired.append({"kind": "net:" + k + ":" + str(
             spec.get("code") or spec.get("type") or (spec.get("fault") or {}).get("kind"))})
         if k == "status":
+            if spec.get("fault"):
+                # a status other than 200 that comes WITH (part of) the entry: partial
+                # content, non-authoritative copy, accepted-but-not-processed ...
+                return FakeResponse(spec["code"], corpus.content_fault(self.body, spec["fault"]))
             return FakeResponse(spec["code"], corpus.HTML_PAGE)
         if k == "exc":
             raise getattr(requests.exceptions, spec["type"])(f"simulated {spec['type']} for {url}")
